@@ -228,7 +228,28 @@ impl Harness for C01 {
             jobs,
             budget_s: if t { 2700 } else { 40 },
             case_deadline_ms: 20_000,
-            floors: vec![],
+            floors: vec![
+                ("lu_cases", 100_000),
+                ("lu_pivoted", 50_000),
+                ("qr_cases", 100_000),
+                ("qr_tall", 10_000),
+                ("qr_negative_diagonal_branch", 50_000),
+                ("qr_positive_diagonal_branch", 50_000),
+                ("chol_spd", 100_000),
+                ("chol_must_refuse", 10_000),
+                ("chol_refused", 10_000),
+                ("svd_factor_cases", 100_000),
+                ("svd_wide", 10_000),
+                ("svd_tall", 10_000),
+                ("svd_solve_rank_deficient", 10_000),
+                ("svd_zero_column", 500),
+                ("svd_zero_row", 500),
+                ("svd_input_columns_not_in_decreasing_norm_order", 10_000),
+                ("svd_u_has_negative_entries", 10_000),
+                ("ls_checked", 100_000),
+                ("min_norm_checked", 10_000),
+                ("family_cases", 10_000),
+            ],
             bounds: json!({
                 "alphabet_perturbation_of_seed": pert.describe(),
                 "scales_log2": scales,
@@ -266,5 +287,12 @@ impl Harness for C01 {
 }
 
 fn main() {
+    // the parent process checks the harness' own exact arithmetic before anything is explored
+    if !std::env::args().any(|a| a == "--worker" || a == "--replay") {
+        if let Err(e) = gen::selfcheck() {
+            eprintln!("MACHINERY-ERROR: C01 oracle self-check failed: {}", e);
+            std::process::exit(2);
+        }
+    }
     mc::main(C01)
 }
